@@ -8,6 +8,7 @@ import Mathlib.Tactic.FieldSimp
 import Mathlib.Algebra.Order.Field.Rat
 import Mathlib.Data.Rat.Floor
 import Mathlib.Tactic.Positivity
+import Mathlib.Data.List.Sort
 
 namespace OdlModel.Partition
 
@@ -1294,5 +1295,184 @@ theorem squeeze2_eq (P : Part) (axis : Option (List Int)) (hP : ∀ p ∈ P, Val
       simp only [hl, Option.bind_eq_bind, Option.bind_some]
       exact squeeze2_core P rng hP
 
+
+
+theorem rabs_le_iff (x e : Rat) : rabs x ≤ e ↔ -e ≤ x ∧ x ≤ e := by
+  unfold rabs; split_ifs <;> constructor <;> intro h <;> (try constructor) <;> (try obtain ⟨h1, h2⟩ := h) <;> linarith
+
+/-- soundness of the parameter completion: whatever `completeAxis` returns is consistent -/
+theorem completeAxis_sound (t : Tol) (eps : Rat) (xmin xmax : Option Rat) (n : Option Int) (dx : Option Rat)
+    (bl br : Bool) (lo hi : Rat) (m : Int) (d : Rat) (hdx : dx = some d)
+    (h : completeAxis t eps xmin xmax n dx bl br = some (lo, hi, m)) :
+    (xmin = none ∨ xmax = none → ((m : Rat) - halfCount bl br) * d = hi - lo) ∧
+    (n = none → d ≠ 0 ∧ -eps ≤ (hi - lo) / d + halfCount bl br - m ∧ (hi - lo) / d + halfCount bl br - m ≤ eps) ∧
+    (xmin.isSome → xmax.isSome → n.isSome →
+      rabs (hi - (lo + ((m : Rat) - halfCount bl br) * d)) ≤ t.atol + t.rtol * rabs (lo + ((m : Rat) - halfCount bl br) * d)) := by
+  subst hdx
+  cases xmin with
+  | none =>
+    cases xmax with
+    | none => cases n <;> simp [completeAxis] at h
+    | some b =>
+      cases n with
+      | none => simp [completeAxis] at h
+      | some k =>
+        simp only [completeAxis, Option.some.injEq, Prod.mk.injEq] at h
+        obtain ⟨h1, h2, h3⟩ := h
+        subst h2 h3
+        refine ⟨fun _ => by rw [← h1]; ring, fun h => absurd h (by simp), fun h => absurd h (by simp)⟩
+  | some a =>
+    cases xmax with
+    | none =>
+      cases n with
+      | none => simp [completeAxis] at h
+      | some k =>
+        simp only [completeAxis, Option.some.injEq, Prod.mk.injEq] at h
+        obtain ⟨h1, h2, h3⟩ := h
+        subst h1 h3
+        refine ⟨fun _ => by rw [← h2]; ring, fun h => absurd h (by simp), fun _ h => absurd h (by simp)⟩
+    | some b =>
+      cases n with
+      | none =>
+        simp only [completeAxis] at h
+        split_ifs at h with hd he
+        simp only [Option.some.injEq, Prod.mk.injEq] at h
+        obtain ⟨h1, h2, h3⟩ := h
+        subst h1 h2
+        refine ⟨fun h => by rcases h with h | h <;> simp at h, fun _ => ⟨hd, ?_⟩,
+          fun _ _ h => absurd h (by simp)⟩
+        have := (rabs_le_iff _ eps).mp (le_of_not_gt he)
+        rw [← h3]
+        exact this
+      | some k =>
+        simp only [completeAxis] at h
+        split_ifs at h with hc
+        simp only [Option.some.injEq, Prod.mk.injEq] at h
+        obtain ⟨h1, h2, h3⟩ := h
+        subst h1 h2 h3
+        refine ⟨fun h => by rcases h with h | h <;> simp at h, fun h => absurd h (by simp),
+          fun _ _ _ => ?_⟩
+        simpa [isClose] using hc
+
+
+/-- a negative step never yields a partition with two or more nodes: the selected nodes would be
+decreasing and `RectGrid` rejects them -/
+theorem getSlice_neg_step (P : Part1) (hv : Valid P) (start stop : Option Int) (st : Int) (hst : st < 0)
+    (Q : Part1) (h : P.getSlice start stop (some st) = some Q) : Q.n ≤ 1 := by
+  unfold Part1.getSlice Part1.mk? at h
+  simp only [Option.getD_some] at h
+  split_ifs at h with h1 h2 h3 hw
+  simp only [Option.some.injEq] at h
+  subst h
+  simp only []
+  by_contra hc
+  have hvQ := valid_of_wf _ hw
+  have hm := hvQ.mono 0 (by simp only []; omega)
+  simp only [] at hm
+  -- the slice bounds for a negative step
+  have hb : (sliceIndices start stop st P.n).1 ≤ (P.n : Int) - 1 ∧ -1 ≤ (sliceIndices start stop st P.n).2 := by
+    unfold sliceIndices
+    simp only [hst, if_true]
+    constructor
+    · cases start with
+      | none => simp
+      | some a => simp only []; split_ifs <;> omega
+    · cases stop with
+      | none => simp
+      | some a => simp only []; split_ifs <;> omega
+  generalize (sliceIndices start stop st P.n).1 = g0 at *
+  generalize (sliceIndices start stop st P.n).2 = g1 at *
+  -- at least two selected nodes: g0 + st ≥ g1 + 1 ≥ 0
+  have hlen : 2 ≤ sliceLen g0 g1 st := by omega
+  unfold sliceLen at hlen
+  rw [if_neg (by omega)] at hlen
+  split_ifs at hlen with hlt
+  · have hq : 1 ≤ (g0 - g1 - 1) / (-st) := by omega
+    have hmul : (-st) * 1 ≤ g0 - g1 - 1 := by
+      have := Int.mul_le_of_le_ediv (by omega : 0 < -st) hq
+      linarith
+    have i0 : (g0 + ((0 : Nat) : Int) * st).toNat = g0.toNat := by simp
+    have i1 : (g0 + ((0 + 1 : Nat) : Int) * st).toNat = (g0 + st).toNat := by simp
+    rw [i0, i1] at hm
+    have : P.c (g0 + st).toNat < P.c g0.toNat := hv.c_strict (by omega) (by omega)
+    linarith
+  · omega
+
+
+/-- selecting from `0 … n-1` the members of a strictly increasing list gives back that list -/
+theorem filter_range_sorted (n : Nat) (sel : List Nat) (hs : sel.Pairwise (· < ·)) (hlt : ∀ k ∈ sel, k < n) :
+    (List.range n).filter (fun j => sel.contains j) = sel := by
+  have hperm : ((List.range n).filter (fun j => sel.contains j)).Perm sel := by
+    apply (List.perm_ext_iff_of_nodup ((List.nodup_range (n := n)).filter _) (hs.imp (fun h => ne_of_lt h))).mpr
+    intro a
+    simp only [List.mem_filter, List.mem_range, List.contains_iff_mem]
+    constructor
+    · intro h; simpa using h.2
+    · intro h; exact ⟨hlt a h, by simpa using h⟩
+  exact List.Perm.eq_of_pairwise (le := (· < ·)) (fun a b _ _ h1 h2 => absurd h1 (by omega))
+    ((List.pairwise_lt_range (n := n)).filter _) hs hperm
+
+/-- `byaxis[start:stop:step]`, arbitrary bounds, step ≥ 1 (or omitted): the axes
+`s, s + step, …` below `e` (clamped bounds), in order, each unchanged -/
+theorem byaxisSlice_spec (P : Part) (hv : ∀ p ∈ P, Valid p) (start stop step : Option Int) (st : Nat)
+    (hst : 1 ≤ st) (hstep : step.getD 1 = (st : Int)) :
+    let s := clampBound P.length 0 start
+    let e := clampBound P.length P.length stop
+    byaxisSlice P start stop step =
+      some ((List.range (sliceLen s e st)).filterMap fun i => P[s.toNat + i * st]?) := by
+  intro s e
+  have hs := clampBound_range P.length 0 ⟨le_refl _, by omega⟩ start
+  have he := clampBound_range P.length P.length ⟨by omega, le_refl _⟩ stop
+  have hstp : (0 : Int) < st := by omega
+  unfold byaxisSlice
+  simp only [hstep]
+  rw [if_neg (by omega), sliceIndices_pos_spec start stop st hstp P.length]
+  simp only []
+  rw [byaxisSel_spec P hv]
+  have hidx : (List.range (sliceLen s e st)).map (fun (i : Nat) => (s + (i : Int) * (st : Int)).toNat) =
+      (List.range (sliceLen s e st)).map (fun i => s.toNat + i * st) := by
+    apply List.map_congr_left
+    intro i _
+    have : s + (i : Int) * (st : Int) = ((s.toNat + i * st : Nat) : Int) := by
+      push_cast; omega
+    rw [this, Int.toNat_natCast]
+  rw [hidx]
+  have hsorted : ((List.range (sliceLen s e st)).map (fun i => s.toNat + i * st)).Pairwise (· < ·) := by
+    rw [List.pairwise_map]
+    apply (List.pairwise_lt_range).imp
+    intro a b hab
+    have : a * st < b * st := Nat.mul_lt_mul_of_pos_right hab (by omega)
+    omega
+  have hlt : ∀ k ∈ (List.range (sliceLen s e st)).map (fun i => s.toNat + i * st), k < P.length := by
+    intro k hk
+    rw [List.mem_map] at hk
+    obtain ⟨i, hi, rfl⟩ := hk
+    rw [List.mem_range] at hi
+    unfold sliceLen at hi
+    rw [if_pos hstp] at hi
+    split_ifs at hi with hse
+    · have h1 : (i : Int) ≤ (e - s - 1) / (st : Int) := by omega
+      have h2 : (i : Int) * st ≤ e - s - 1 := by
+        have := Int.mul_le_of_le_ediv hstp h1
+        linarith
+      have : ((s.toNat + i * st : Nat) : Int) < P.length := by push_cast; omega
+      exact_mod_cast this
+    · omega
+  rw [filter_range_sorted P.length _ hsorted hlt, List.filterMap_map]
+  rfl
+
+
+theorem squeeze_idem (P : Part) :
+    (squeeze P none).bind (fun Q => squeeze Q none) = squeeze P none ∧
+    ∀ Q, squeeze P none = some Q → ∀ p ∈ Q, 1 < p.n := by
+  rw [squeeze_all]
+  constructor
+  · simp only [Option.bind_some]
+    rw [squeeze_all, List.filter_filter]
+    simp
+  · intro Q h p hp
+    simp only [Option.some.injEq] at h
+    subst h
+    simpa using (List.mem_filter.mp hp).2
 
 end OdlModel.Partition
